@@ -39,6 +39,21 @@ theorem C02_distinct (order₁ order₂ : Graph → List Nat)
   subst he
   exact hnon (C02_injective order₁ order₂ hperm₁ hperm₂ g₁ g₂ hw₁ hs₁ hm₁ hw₂ hs₂ hm₂ hsize₁ hsize₂ s₁ h₁ h₂)
 
+/-- **Together with C01: a complete invariant.**  For an oracle meeting the bliss contract, two molecules get
+the same string exactly when they are isomorphic as graphs coloured by element, isotope mass and radical. -/
+theorem C02_complete_invariant (O : CanonOracle)
+    (g₁ g₂ : Graph) (hw₁ : g₁.WF) (hs₁ : g₁.Simple) (hm₁ : g₁.MolAtoms) (hw₂ : g₂.WF) (hs₂ : g₂.Simple) (hm₂ : g₂.MolAtoms)
+    (hsize₁ : (natRepr (g₁.numberOfNodes + 1)).length ≤ intMaxStrDigits)
+    (hsize₂ : (natRepr (g₂.numberOfNodes + 1)).length ≤ intMaxStrDigits)
+    (s₁ s₂ : Str) (h₁ : tucanOf O.order g₁ = .ok s₁) (h₂ : tucanOf O.order g₂ = .ok s₂) :
+    s₁ = s₂ ↔ ∃ π : Nat → Nat, Iso SameIdent π g₁ g₂ := by
+  constructor
+  · intro he
+    subst he
+    exact C02_injective O.order O.order O.perm O.perm g₁ g₂ hw₁ hs₁ hm₁ hw₂ hs₂ hm₂ hsize₁ hsize₂ s₁ h₁ h₂
+  · rintro ⟨π, iso⟩
+    exact tucan_invariant O iso (fun a ha x hx => (hm₁ a ha x hx).chem) hw₁ hs₁ hw₂ hs₂ h₁ h₂
+
 /-- non-vacuity: a concrete molecule meets all hypotheses -/
 example : exGraph.WF ∧ exGraph.Simple ∧ exGraph.MolAtoms ∧
     (natRepr (exGraph.numberOfNodes + 1)).length ≤ intMaxStrDigits :=
